@@ -134,6 +134,15 @@ OtherDirectives == <<
     Query(D1, M0(519), "q", "SELECT 1"),
     Custom(D1, M0(520), "budget", <<"monthly">>) >>
 
+(* ---- the connection: qualifier options, a small alphabet for the multi-statement run ---- *)
+QNone == {NoQual}
+Q(o, c, clr) == [open |-> o, close |-> c, clear |-> clr]
+QConn == {NoQual, Q(NULL, NULL, TRUE), Q(Some(D1), NULL, FALSE), Q(NULL, Some(D1 + 1), FALSE), Q(NULL, Some(0), FALSE),
+          Q(Some(D1), Some(D2), TRUE)}
+(* two transactions (one posting to an expenses account; one dated later, with cost and price), the open and the close
+   of one account, a commodity, a price *)
+ConnAlpha == [n \in 1..6 |-> SmallAlpha[<<1, 2, 4, 6, 7, 9>>[n]]]
+
 GenAlpha == [v \in 1..60 |-> FocusTxn(v - 1)] \o [v \in 1..18 |-> AttrTxn(v - 1)] \o ShapeTxns \o OtherDirectives
 GenKeys == <<"filename", "lineno", "k1", "k2", "both", "kd", "kx", "kb", "ka", "nokey">>
 =============================================================================
